@@ -73,6 +73,7 @@ type srvConnResult struct {
 	Got    []srvObs `json:"got"`
 	Events []string `json:"events"` // hookok hookfail hstart hend termhook, in order
 	Err    string   `json:"err,omitempty"`
+	DoneMs int      `json:"done_ms,omitempty"` // time the script took (scenarios with a silent peer only)
 }
 
 type srvResult struct {
@@ -86,6 +87,9 @@ type srvResult struct {
 	SdLate      []string        `json:"sd_late,omitempty"`    // events observed after Shutdown returned
 	SdListener  bool            `json:"sd_listener_closed,omitempty"`
 	SdRunning   int             `json:"sd_running,omitempty"` // handlers in progress when Shutdown returned
+	Sd2Ran      bool            `json:"sd2_ran,omitempty"`     // a SECOND Shutdown call was made while the first was in progress
+	Sd2Running  int             `json:"sd2_running,omitempty"` // handlers in progress when that second call returned
+	Sd2Hang     bool            `json:"sd2_hang,omitempty"`
 	SdMs        int             `json:"sd_ms,omitempty"`
 	Hang        bool            `json:"hang,omitempty"`
 	Spawned     int             `json:"spawned"` // connections for which handleConn ran (any event or server-side close by handleConn)
@@ -503,6 +507,23 @@ func srvRunScenario(sc srvScenario) (res srvResult) {
 			close(done)
 		}(sdDone)
 	}
+	// a second, concurrent Shutdown call: whenever ANY Shutdown call returns, no handler runs
+	sd2Done := make(chan struct{})
+	var sd2Once sync.Once
+	shutdown2 := func() {
+		sd2Once.Do(func() {
+			res.Sd2Ran = true
+			go func() {
+				defer close(sd2Done)
+				_ = srv.Shutdown()
+				running := 0
+				for _, cc := range w.conns {
+					running += int(cc.running.Load())
+				}
+				res.Sd2Running = running
+			}()
+		})
+	}
 	waitShutdown := func() {
 		sdMu.Lock()
 		d := sdDone
@@ -522,7 +543,7 @@ func srvRunScenario(sc srvScenario) (res srvResult) {
 		wg.Add(1)
 		go func(i int) {
 			defer wg.Done()
-			res.Conns[i] = srvRunConn(i, sc.Conns[i], ln, w.conns[i], shutdown, waitShutdown)
+			res.Conns[i] = srvRunConn(i, sc.Conns[i], ln, w.conns[i], shutdown, waitShutdown, shutdown2)
 		}(i)
 	}
 	scriptsDone := make(chan struct{})
@@ -566,6 +587,13 @@ func srvRunScenario(sc srvScenario) (res srvResult) {
 		shutdown()
 	}
 	waitShutdown()
+	if res.Sd2Ran {
+		select {
+		case <-sd2Done:
+		case <-time.After(8 * time.Second):
+			res.Sd2Hang = true
+		}
+	}
 	select {
 	case err := <-serveDone:
 		if err != nil {
@@ -636,8 +664,10 @@ func (a srvAddr) String() string  { return string(a) }
 
 func (c srvNamedConn) RemoteAddr() net.Addr { return srvAddr(c.name) }
 
-func srvRunConn(idx int, cs srvConn, ln *memnet.Listener, cc *srvConnCtl, shutdown, waitShutdown func()) (out srvConnResult) {
+func srvRunConn(idx int, cs srvConn, ln *memnet.Listener, cc *srvConnCtl, shutdown, waitShutdown, shutdown2 func()) (out srvConnResult) {
 	out.Got = []srvObs{}
+	t0 := time.Now()
+	defer func() { out.DoneMs = int(time.Since(t0) / time.Millisecond) }()
 	toClient := 1 << 20
 	if cs.Sync {
 		toClient = 8
@@ -683,6 +713,10 @@ func srvRunConn(idx int, cs srvConn, ln *memnet.Listener, cc *srvConnCtl, shutdo
 	case "fail":
 		// not a TLS client hello
 		_, _ = raw.Write([]byte("this is not a TLS handshake, it is plain text\n\n"))
+	case "silent":
+		// connects and says nothing; "silent3": only the first three bytes of a TLS record
+	case "silent3":
+		_, _ = raw.Write([]byte{0x16, 0x03, 0x01})
 	}
 	defer raw.Close()
 	var pending []byte // rest of a partially written message
@@ -796,6 +830,8 @@ func srvRunConn(idx int, cs srvConn, ln *memnet.Listener, cc *srvConnCtl, shutdo
 			time.Sleep(time.Duration(d) * time.Millisecond)
 		case "shutdown":
 			shutdown()
+		case "shutdown2":
+			shutdown2()
 		case "waitshutdown":
 			waitShutdown()
 		}
